@@ -23,6 +23,15 @@ pub struct FwCase {
     pub extreme: u64,
     /// non-interference probe: index of a draw-independent machine that never signals
     pub ni: Option<usize>,
+    /// scripted first words of the framework's random stream
+    pub prefix: Vec<u64>,
+}
+
+impl FwCase {
+    pub fn with_prefix(mut self, prefix: Vec<u64>) -> Self {
+        self.prefix = prefix;
+        self
+    }
 }
 
 pub fn ev_str(e: &TriggerEvent) -> String {
@@ -175,12 +184,16 @@ pub fn run_case(c: &FwCase) -> String {
         let _ = writeln!(out, "m {}", hex(&genm::machine_bytes(m)));
     }
     let _ = writeln!(out, "rng {} {}", c.rng_seed, c.extreme);
+    if !c.prefix.is_empty() {
+        let ws: Vec<String> = c.prefix.iter().map(|w| format!("{:016x}", w)).collect();
+        let _ = writeln!(out, "words {}", ws.join(" "));
+    }
     if let Some(p) = c.ni {
         let _ = writeln!(out, "probe {}", p);
     }
     maybenot::verif::enable(true);
     let _ = maybenot::verif::take();
-    let rng = ScriptRng::new(c.rng_seed, c.extreme);
+    let rng = mk_rng(c);
     let r = catch_unwind(AssertUnwindSafe(|| Framework::new(c.machines.clone(), c.fp, c.fb, VInstant(c.t0), rng)));
     let log = maybenot::verif::take();
     fmt_log(&mut out, &log);
@@ -307,13 +320,21 @@ pub fn gen_general(p: &mut Prng, id: String) -> FwCase {
     let single = p.chance(1, 2);
     let wild = p.chance(1, 2);
     let calls = gen_history(p, n, single, 80, wild);
-    FwCase { id, kind: "general".into(), machines, fp, fb, t0: 0, calls, rng_seed: p.next(), extreme: *p.pick(&[0, 0, 4, 16]), ni: None }
+    FwCase { id, kind: "general".into(), machines, fp, fb, t0: 0, calls, rng_seed: p.next(), extreme: *p.pick(&[0, 0, 4, 16]), ni: None, prefix: vec![] }
 }
 
 /// Actions only (no hooks): used for the determinism / clone comparison.
+fn mk_rng(c: &FwCase) -> ScriptRng {
+    if c.prefix.is_empty() {
+        ScriptRng::new(c.rng_seed, c.extreme)
+    } else {
+        ScriptRng::with_prefix(c.rng_seed, c.prefix.clone())
+    }
+}
+
 fn run_actions_only(c: &FwCase, clone_at: Option<usize>) -> Vec<String> {
     let mut res = Vec::new();
-    let rng = ScriptRng::new(c.rng_seed, c.extreme);
+    let rng = mk_rng(c);
     let r = catch_unwind(AssertUnwindSafe(|| Framework::new(c.machines.clone(), c.fp, c.fb, VInstant(c.t0), rng)));
     let mut f = match r {
         Ok(Ok(f)) => f,
@@ -369,13 +390,18 @@ pub fn parse_cases(text: &str) -> Vec<FwCase> {
         let ws: Vec<&str> = line.split_whitespace().collect();
         match ws.as_slice() {
             ["case", id, kind @ ..] => {
-                cur = Some(FwCase { id: id.to_string(), kind: kind.join(" "), machines: vec![], fp: 0.0, fb: 0.0, t0: 0, calls: vec![], rng_seed: 0, extreme: 0, ni: None });
+                cur = Some(FwCase { id: id.to_string(), kind: kind.join(" "), machines: vec![], fp: 0.0, fb: 0.0, t0: 0, calls: vec![], rng_seed: 0, extreme: 0, ni: None, prefix: vec![] });
             }
             ["m", h] => {
                 if let (Some(c), Some(b)) = (cur.as_mut(), crate::util::unhex(h)) {
                     if let Ok(m) = bincode::DefaultOptions::new().deserialize::<Machine>(&b) {
                         c.machines.push(m);
                     }
+                }
+            }
+            ["words", ws @ ..] => {
+                if let Some(c) = cur.as_mut() {
+                    c.prefix = ws.iter().filter_map(|w| u64::from_str_radix(w, 16).ok()).collect();
                 }
             }
             ["probe", i] => {
@@ -439,6 +465,7 @@ pub fn ni_line(c: &FwCase) -> Option<String> {
         rng_seed: c.rng_seed ^ 0x5555,
         extreme: 0,
         ni: None,
+        prefix: vec![],
     };
     let alone = run_actions_only(&solo, None);
     // keep only the probe's lines of the combined run, relabelled to machine 0
@@ -467,4 +494,28 @@ pub fn ni_line(c: &FwCase) -> Option<String> {
         return Some(format!("ni fail len {} {}\n", combined.len(), alone.len()));
     }
     Some("ni ok\n".into())
+}
+
+/// The input lines of a case, without running anything (used to report a case that crashes the process).
+pub fn inputs_only(c: &FwCase) -> String {
+    let mut out = String::new();
+    let _ = writeln!(out, "case {} {}", c.id, c.kind);
+    for m in &c.machines {
+        let _ = writeln!(out, "m {}", hex(&genm::machine_bytes(m)));
+    }
+    let _ = writeln!(out, "rng {} {}", c.rng_seed, c.extreme);
+    if !c.prefix.is_empty() {
+        let ws: Vec<String> = c.prefix.iter().map(|w| format!("{:016x}", w)).collect();
+        let _ = writeln!(out, "words {}", ws.join(" "));
+    }
+    if let Some(p) = c.ni {
+        let _ = writeln!(out, "probe {}", p);
+    }
+    let _ = writeln!(out, "new {:016x} {:016x} {}", c.fp.to_bits(), c.fb.to_bits(), c.t0);
+    for (t, evs) in &c.calls {
+        let evs_s: Vec<String> = evs.iter().map(ev_str).collect();
+        let _ = writeln!(out, "call {} {}", t, evs_s.join(" "));
+    }
+    let _ = writeln!(out, "end");
+    out
 }
